@@ -206,9 +206,11 @@ func (r *v7hRun) finish() {
 	}
 	line := r.header(len(r.events)) + " " + strings.Join(r.events, " ")
 	seen := map[string]bool{}
+	perKind := map[string]int{}
 	for _, f := range r.h.fails {
-		if !seen[f[0]] {
-			seen[f[0]] = true
+		if k := v7DedupKey(f[0], f[1]); !seen[k] && perKind[f[0]] < 8 {
+			seen[k] = true
+			perKind[f[0]]++
 			r.h.out.L2(f[0], line, f[1])
 		}
 	}
